@@ -65,6 +65,7 @@ def str_consts(fx, f, only_compared=False):
 
 
 def run(ctx):
+    canon.resolve_names(ctx)
     fx = ctx.fx
     S = Schema(fx)
     closure = sorted(S.wire_closure(ROOTS))
@@ -161,8 +162,7 @@ def check_shims(ctx, S, RULE, directions=("from", "try_into")):
         if not ff or not tf or not adt or not madt:
             ctx.bad(RULE, shim, "shim conversion functions not found")
             continue
-        fb = body_of(fx, ff["key"])
-        ctx.touch_body(fb)
+        fb = ctx.region(None, policy="private", key=ff["key"])
         sites = [st for i, blk in enumerate(fb.blocks) for st in blk["stmts"] if st["k"] == "assign" and st["rv"].get("adt") == shim and i in fb.reach]
         mfields = [fl["name"] for fl in madt["variants"][0]["fields"]]
         if len(sites) != 1:
@@ -171,8 +171,19 @@ def check_shims(ctx, S, RULE, directions=("from", "try_into")):
             rv = sites[0]["rv"]
             used = set()
             for fname, op in zip(rv["fields"], rv["ops"]):
-                lv = fb.trace(op, (), None, {"__flow_all__": lambda t: callee_name(t) in ("models::layout::format_datetime", "std::iter::Iterator::map") or (callee_name(t) or "").startswith("chrono::")})
+                lv = fb.trace(op, (), None, {"__flow_all__": lambda t: callee_name(t) in ("std::iter::Iterator::map",) or (callee_name(t) or "").startswith("chrono::")})
                 lv = [l for l in lv if not (l.kind == "agg" and l.data[2].get("agg") == "closure")]
+                if fname != "typ":
+                    # a collection rebuilt element by element: its content is what counts; formatting options are not data
+                    lv2 = []
+                    for l in lv:
+                        if l.kind == "call" and (callee_name(l.data[1]) or "").endswith(("::new", "::with_capacity")) and not l.path:
+                            lv2 += fb.trace(op, (ELEM,), None, {"__content__": True, "__flow_all__": lambda t: (callee_name(t) or "").startswith("chrono::")})
+                        elif l.kind in ("const", "agg") and any(v.startswith("DateTime::") for v in l.via):
+                            continue
+                        else:
+                            lv2.append(l)
+                    lv = lv2
                 if fname == "typ":
                     okf = bool(lv) and all(l.kind == "const" and l.data.get("str") == typ_const for l in lv)
                     ctx.inst(RULE, "%s::from sets _type" % shim.split("::")[-1], okf, "_type <- {%s}" % ", ".join(leaf_s(fb, l) for l in lv), ff["at"])
@@ -201,8 +212,7 @@ def check_shims(ctx, S, RULE, directions=("from", "try_into")):
                     det.append("%s: constructor source unknown" % fl)
                     continue
                 arg = news[0][1]["args"][pl[0].data - 1]
-                al = tb.trace(arg, (), None, {"__flow_all__": lambda t: callee_name(t) in ("models::layout::parse_datetime",) or
-                                              (callee_name(t) or "").startswith("chrono::") or callee_name(t) in ("std::iter::Iterator::filter", "std::iter::Iterator::collect", "std::iter::IntoIterator::into_iter")})
+                al = tb.trace(arg, (), None, {"__flow_all__": lambda t: (callee_name(t) or "").startswith("chrono::") or callee_name(t) in ("std::iter::Iterator::filter", "std::iter::Iterator::collect", "std::iter::IntoIterator::into_iter")})
                 # a table filled by insertions (helper with a loop instead of filter + collect): its content is what is inserted
                 al2 = []
                 for l in al:
